@@ -1021,6 +1021,17 @@ pub fn random_spec(run: u64, seed: u64, profile: &str) -> Value {
             ops.push(json!({"op": "unstage", "r": 0}));
             ops.push(json!({"op": "reload", "r": 0}));
         }
+        if p.chance(1, 4) {
+            // the receiver stores the very same contents in a pack of its own and then gets the writer's block
+            // without the pack that block names: every object is readable, the named pack is still missing
+            ops.push(json!({"op": "update", "r": 2, "doc": doc(b0.clone())}));
+            ops.push(json!({"op": "commit", "r": 2, "bn": 3}));
+            ops.push(json!({"op": "copy_item", "r": 2, "kind": "delta", "bn": 2, "s": 0}));
+            ops.push(json!({"op": "refresh", "r": 2}));
+            if p.chance(1, 2) {
+                ops.push(json!({"op": "reload", "r": 2}));
+            }
+        }
         ops.push(json!({"op": "update", "r": 2, "doc": doc(if p.chance(1, 2) { a0.clone() } else { b0.clone() })}));
         match p.below(3) {
             0 => {}
